@@ -625,6 +625,178 @@ def _check_inram(case, rebuilt):
   return out
 
 
+# ------------------------------------------------- another worker mid-request
+def midread_strategy():
+  from hypothesis import strategies as st
+  ref = st.integers(0, 7)
+  op = st.one_of(
+      st.tuples(st.just('suggest'), st.integers(1, 3),
+                st.one_of(st.none(), ref, ref)),   # victim completed mid-read
+      st.tuples(st.just('suggest'), st.integers(1, 3),
+                st.one_of(st.none(), ref, ref)),
+      st.tuples(st.just('complete'), ref, st.sampled_from(
+          [False, False, True])))
+  return st.fixed_dictionaries({
+      'rebuilt': st.booleans(),
+      'ops': st.lists(op, min_size=4, max_size=24)})
+
+
+def check_midread(case):
+  """Another worker completes a trial between the reads of one policy
+  invocation (the supporter does it after the first GetTrials of a request).
+
+  Oracle (holds for whatever the order of the reads is, as long as each
+  update is consistent): no trial is given as completed and as active in the
+  same update; active given is between "ACTIVE at the end" and "ACTIVE at the
+  start" of the request; completed given were completed by the time of the
+  update and not given before; after a final undisturbed request every
+  completed trial has been given exactly once."""
+  from harness import c12_rec as R
+  from vizier import pythia
+  from vizier import pyvizier as vz
+  from vizier._src.algorithms.policies import designer_policy as dp
+  out = core.Out()
+  rebuilt = case['rebuilt']
+  host = 'midread_rebuilt' if rebuilt else 'midread_alive'
+  out.cls(host)
+
+  class Rec:
+    deliveries = ()
+    force_exact = True
+
+    def __init__(self):
+      self.suggests = 0
+      self.next_token = 1
+      self.updates = []
+
+    def new_token(self):
+      self.next_token += 1
+      return self.next_token - 1
+
+    def on_update(self, designer, completed, active):
+      self.updates.append(([R.token_of(t) for t in completed],
+                           [R.token_of(t) for t in active]))
+
+  rec = Rec()
+  factory = R.make_factory(rec)
+  inner = pythia.InRamPolicySupporter(R.problem())
+
+  class Sup(pythia.PolicySupporter):
+    calls = 0
+    victim = None
+    fired = False
+
+    @property
+    def study_guid(self):
+      return inner.study_guid
+
+    def GetStudyConfig(self, study_guid=None):
+      return inner.GetStudyConfig(study_guid)
+
+    def GetTrials(self, **kw):
+      got = inner.GetTrials(**kw)
+      self.calls += 1
+      if self.calls == 1 and self.victim is not None:
+        v, self.victim = self.victim, None
+        if v.status == vz.TrialStatus.ACTIVE:
+          v.complete(vz.Measurement(metrics={'m': 1.0}))
+          self.fired = True
+      return got
+
+  sup = Sup()
+
+  def make_policy():
+    cls = (dp.PartiallySerializableDesignerPolicy if rebuilt
+           else dp.InRamDesignerPolicy)
+    return cls(inner.study_config, sup, factory)
+
+  policy = make_policy()
+  given = {}   # token -> number of times given as completed
+
+  def tokens(status):
+    return {R.token_of(t) for t in inner.trials if t.status == status}
+
+  def request(n, victim):
+    nonlocal policy
+    if rebuilt:
+      policy = make_policy()
+    a0 = tokens(vz.TrialStatus.ACTIVE)
+    sup.calls, sup.victim, sup.fired = 0, victim, False
+    before = len(rec.updates)
+    try:
+      inner.SuggestTrials(policy, n)
+    except Exception as e:  # pylint: disable=broad-except
+      out.violate('suggest_raised/%s/%s' % (host, type(e).__name__), repr(e))
+      return False
+    if sup.fired:
+      out.cls('completed_between_reads')
+    if len(rec.updates) != before + 1:
+      out.violate('suggest_without_update/%s' % host,
+                  '%d updates' % (len(rec.updates) - before))
+      return False
+    comp, act = rec.updates[-1]
+    a1 = a0 - ({R.token_of(victim)} if sup.fired else set())
+    c1 = tokens(vz.TrialStatus.COMPLETED) - a0 | (
+        {R.token_of(victim)} if sup.fired else set())
+    both = set(comp) & set(act)
+    if both:
+      out.violate('update/%s/completed_and_active_at_once' % host,
+                  'tokens %r: completed %r active %r (another worker '
+                  'completed a trial between the reads: %s)' % (
+                      sorted(both), comp, act, sup.fired))
+      return False
+    if len(set(act)) != len(act) or not a1 <= set(act) <= a0:
+      out.violate('update/%s/active_set' % host,
+                  'given %r; ACTIVE at start %r, at end %r' % (
+                      sorted(act), sorted(a0), sorted(a1)))
+      return False
+    if not set(comp) <= c1:
+      out.violate('update/%s/completed_not_completed' % host,
+                  'given %r; completed %r' % (sorted(comp), sorted(c1)))
+      return False
+    for k in comp:
+      given[k] = given.get(k, 0) + 1
+      if given[k] > 1:
+        out.violate('update/%s/completed_given_twice' % host,
+                    'token %d' % k)
+        return False
+    early = c1 - ({R.token_of(victim)} if sup.fired else set())
+    missed = {k for k in early if k not in given}
+    if missed:
+      out.violate('update/%s/completed_missed' % host,
+                  'tokens %r completed before the request and never given'
+                  % sorted(missed))
+      return False
+    return True
+
+  fired_any = False
+  for op in case['ops']:
+    act = sorted((t.id, t) for t in inner.trials
+                 if t.status == vz.TrialStatus.ACTIVE)
+    if op[0] == 'suggest':
+      victim = act[op[2] % len(act)][1] if (op[2] is not None and act) else None
+      if not request(op[1], victim):
+        return out
+      fired_any = fired_any or sup.fired
+    elif act:
+      t = act[op[1] % len(act)][1]
+      if op[2]:
+        t.complete(vz.Measurement(), infeasibility_reason='harness')
+      else:
+        t.complete(vz.Measurement(metrics={'m': 2.0}))
+  # a final undisturbed request: everything completed has been given once
+  if not request(1, None):
+    return out
+  done = tokens(vz.TrialStatus.COMPLETED)
+  wrong = {k: given.get(k, 0) for k in done if given.get(k, 0) != 1}
+  if wrong:
+    out.violate('life/%s/not_exactly_once' % host, 'token -> times: %r' % wrong)
+    return out
+  out.count('updates', len(rec.updates))
+  out.nontrivial = fired_any
+  return out
+
+
 def check_inram_alive(case):
   return _check_inram(case, False)
 
@@ -676,4 +848,9 @@ def families(tier):
                       'restart_from_lost_state',
                       'update_while_stopping_trial',
                       'update_while_requested_trial')),
+      core.Family('inram_midread', check_midread, strategy=midread_strategy,
+                  budget={'quick': 1500, 'thorough': 40000},
+                  shards={'quick': 2, 'thorough': 8},
+                  required_classes=('midread_alive', 'midread_rebuilt',
+                                    'completed_between_reads')),
   ]
